@@ -131,6 +131,46 @@ func checkC04(cx *Ctx, r *Report) {
 		}
 		cx.errAll = false
 	}
+	// the signer is set up with the configured signature algorithm in the signature position and a digest method in
+	// the digest position (swapped, every signature names an algorithm pair no verifier accepts); the algorithm check
+	// accepts only the known RSA methods
+	if gs := w.Func("signature.GetSigner"); gs != nil {
+		gvf := cx.newVFlow("GetSigner", gs)
+		ls, sa := gvf.FieldStoreSources("xmlsig.SignerOptions", "SignatureAlgorithm")
+		if len(sa) > 0 {
+			r.checkSources("R-VFG", "GetSigner:SignatureAlgorithm", w.InstrPos(sa[0]), ls, []string{"param:signature.GetSigner/#2"}, []string{"param:signature.GetSigner/#2"}, true)
+		}
+		ld, sd := gvf.FieldStoreSources("xmlsig.SignerOptions", "DigestAlgorithm")
+		if len(sd) > 0 {
+			r.checkSources("R-VFG", "GetSigner:DigestAlgorithm", w.InstrPos(sd[0]), ld, []string{"const:http://www.w3.org/2001/04/xmlenc#sha*", "const:http://www.w3.org/2000/09/xmldsig#sha1", "const:http://www.w3.org/2001/04/xmldsig-more#sha*"}, nil, true)
+		}
+		r.Check(len(sa) > 0 && len(sd) > 0, "R-VFG", "GetSigner:options", w.FnPos(gs), "signature and digest algorithm are set", "GetSigner no longer sets the signature / digest algorithm of the signer")
+	}
+	if iv := w.Func("signature.isValidSignatureAlgorithm"); iv != nil {
+		aps, okp := fx.atomPaths(iv, 256)
+		bad := ""
+		nOK := 0
+		for i := range aps {
+			p := &aps[i]
+			if isNil, _ := fx.errNilness(p, fx.retVal(p, 0)); !isNil {
+				continue
+			}
+			nOK++
+			matched := false
+			for _, a := range p.Atoms {
+				if a.Op == "EQ" && !a.Neg && (strings.HasPrefix(a.A, "const:http://www.w3.org/") || strings.HasPrefix(a.B, "const:http://www.w3.org/")) {
+					matched = true
+				}
+			}
+			if !matched {
+				bad = "an algorithm that equals none of the known signature methods is accepted (" + atomsString(p.Atoms) + ")"
+			}
+		}
+		if !okp {
+			bad = "too many paths"
+		}
+		r.Check(bad == "" && nOK > 0, "R-GUARD", "isValidSignatureAlgorithm", w.FnPos(iv), fmt.Sprintf("%d accepting paths, each under equality with a known method", nOK), bad)
+	}
 	if nSignSites < 5 {
 		r.Fail("R-ORDER", "#signing-sites", "", fmt.Sprintf("only %d signing call sites found in handler-reachable code", nSignSites))
 	}
